@@ -34,6 +34,18 @@ Proof.
       rewrite Hkeep by exact Hnot. unfold upd. rewrite Nat.eqb_refl. apply Hg.
 Qed.
 
+Lemma leak_classes_pres (P : nat -> ucls -> Prop) ids ns :
+  (forall id u n, P id u -> P id {| u_instr := u_instr u; u_store := u_store u + n; u_owner := u_owner u; u_gram := u_gram u |}) ->
+  forall cl, (forall id, P id (cl id)) -> forall id, P id (leak_classes ids ns cl id).
+Proof.
+  intro Hg. unfold leak_classes. generalize (combine ids ns) as ps.
+  induction ps as [|[x n] ps IH]; intros cl Hcl id; cbn [fold_left].
+  - apply Hcl.
+  - apply IH. intro id'. unfold upd. cbn [fst snd]. destruct (Nat.eqb id' x) eqn:E.
+    + apply Nat.eqb_eq in E. subst id'. apply Hg. apply Hcl.
+    + apply Hcl.
+Qed.
+
 (* ------------------------------------------------------------------ the invariant *)
 Section Inv.
   Variable F : facts.
@@ -55,7 +67,7 @@ Section Inv.
     i_gp_key : forall a b gp, gparsers st a b = Some gp -> f_gp_key_memo F = true -> gp_memo gp = b;
     i_base : base_cache st = [];
     i_slot : forall s m, slots st s = Some m ->
-               m_bp_dirty m = false /\ m_cache m = [] /\ wf_cfg (m_cfg m) /\
+               m_bp_dirty m = false /\ m_cache m = [] /\ m_stale m = false /\ wf_cfg (m_cfg m) /\
                (forall id, In id (c_classes (m_cfg m)) -> u_gram (classes st id) = Some (cls_gram id)) /\
                (exists b, k_kind (create_out (m_cfg m) {| gv_memo := b; gv_cache := [] |}) = COk /\
                           (f_gp_key_memo F = true -> b = c_memo (m_cfg m)));
@@ -71,7 +83,8 @@ Section Inv.
   Hypothesis Fgood : good F = true.
 
   Lemma good_parts : f_clear_in_finally F = true /\ f_loads_use_clone F = true /\ f_clone_resets F = true /\
-                     f_except_restores F = true /\ f_end_restores F = true /\ f_restore_on_primitive F = true.
+                     f_except_restores F = true /\ f_end_restores F = true /\ f_restore_on_primitive F = true /\
+                     f_restore_guarded F = true.
   Proof.
     unfold good in Fgood. repeat (apply andb_true_iff in Fgood as [Fgood ?]). repeat split; assumption.
   Qed.
@@ -83,15 +96,15 @@ Section Inv.
 
   Lemma class_effect_instr r u : u_instr u = 0 -> u_instr (class_effect F r u) = 0.
   Proof.
-    destruct good_parts as (_ & _ & _ & He & Hn & Hp).
-    unfold class_effect. rewrite He, Hn, Hp. unfold when.
+    destruct good_parts as (_ & _ & _ & He & Hn & Hp & Hgd).
+    unfold class_effect. rewrite He, Hn, Hp, Hgd. unfold when. cbn [negb].
     intro H0. destruct (l_kind r); cbn; rewrite ?H0; reflexivity.
   Qed.
 
   Lemma class_effect_gram r u : u_gram (class_effect F r u) = u_gram u.
   Proof.
     unfold class_effect, when.
-    destruct (f_except_restores F), (f_end_restores F), (f_restore_on_primitive F), (l_kind r); reflexivity.
+    destruct (f_except_restores F), (f_end_restores F), (f_restore_on_primitive F), (f_restore_guarded F), (l_kind r); reflexivity.
   Qed.
 
   Lemma step_new_inv st s c : wf_cfg c -> inv st -> inv (fst (step st (New s c))).
@@ -131,8 +144,8 @@ Section Inv.
       + apply Igk.
     - exact Ib.
     - intros s0 m0. destruct (k_kind r) eqn:Ek.
-      + intro E. destruct (Is s0 m0 E) as (H1 & H2 & H3 & H4 & H5). repeat split; auto.
-      + intro E. destruct (Is s0 m0 E) as (H1 & H2 & H3 & H4 & H5). repeat split; auto.
+      + intro E. destruct (Is s0 m0 E) as (H1 & H2 & H2s & H3 & H4 & H5). repeat split; auto.
+      + intro E. destruct (Is s0 m0 E) as (H1 & H2 & H2s & H3 & H4 & H5). repeat split; auto.
       + unfold upd. destruct (Nat.eqb s0 s).
         * intro E. inversion E; subst m0. cbn. repeat split; auto.
           -- intros id Hin. rewrite Ecls.
@@ -141,7 +154,7 @@ Section Inv.
           -- exists (gp_memo gp). split.
              ++ rewrite Er, Hgpc in Ek. exact Ek.
              ++ intro Hk. rewrite (Hgpk Hk), Ekm. unfold gp_km. rewrite Hk. reflexivity.
-        * intro E. destruct (Is s0 m0 E) as (H1 & H2 & H3 & H4 & H5). repeat split; auto.
+        * intro E. destruct (Is s0 m0 E) as (H1 & H2 & H2s & H3 & H4 & H5). repeat split; auto.
     - exact Hcls_instr.
     - exact Hcls_gram.
   Qed.
@@ -150,27 +163,32 @@ Section Inv.
   Proof.
     intros I. pose proof I as I0. destruct I as [Igc Igk Ib Is Ii Ig].
     cbn [step]. unfold step_load. destruct (slots st s) as [m|] eqn:Em; [|exact I0].
-    destruct good_parts as (Hc & Hl & Hr & _).
+    destruct good_parts as (Hc & Hl & Hr & _ & _ & _ & Hgd).
     set (c := m_cfg m). set (r := load_out c i (view_of st m)).
-    destruct (Is s m Em) as (Hd & Hmc & Hwf & Hgr & Hok).
+    destruct (Is s m Em) as (Hd & Hmc & Hst & Hwf & Hgr & Hok).
     constructor; cbn [fst gparsers base_cache slots classes].
     - exact Igc.
     - exact Igk.
     - rewrite Ib. destruct (c_base c); [apply after_parse_nil | reflexivity].
     - intros s0 m0. unfold upd. destruct (Nat.eqb s0 s).
-      + intro E. inversion E; subst m0. cbn. rewrite Hd, Hl, Hr, Hmc. cbn. repeat split; auto.
+      + intro E. inversion E; subst m0. cbn. rewrite Hd, Hl, Hr, Hmc, Hst, Hgd. cbn. repeat split; auto.
         * apply after_parse_nil.
+        * rewrite andb_false_r. reflexivity.
         * intros id Hin. fold c.
+          apply (leak_classes_pres (fun id u => u_gram (classes st id) = Some (cls_gram id) -> u_gram u = Some (cls_gram id))); auto.
           pose proof (map_classes_pres (fun id u => u_gram (classes st id) = Some (cls_gram id) -> u_gram u = Some (cls_gram id))
                         (c_classes c) (class_effect F r)) as P.
           apply P; auto. intros id' u _ H1 H2. rewrite class_effect_gram. auto.
-      + intro E. destruct (Is s0 m0 E) as (H1 & H2 & H3 & H4 & H5). repeat split; auto.
+      + intro E. destruct (Is s0 m0 E) as (H1 & H2 & H2s & H3 & H4 & H5). repeat split; auto.
         intros id Hin.
+        apply (leak_classes_pres (fun id u => u_gram (classes st id) = Some (cls_gram id) -> u_gram u = Some (cls_gram id))); auto.
         pose proof (map_classes_pres (fun id u => u_gram (classes st id) = Some (cls_gram id) -> u_gram u = Some (cls_gram id))
                       (c_classes c) (class_effect F r)) as P.
         apply P; auto. intros id' u _ H1' H2'. rewrite class_effect_gram. auto.
-    - apply (map_classes_pres (fun _ u => u_instr u = 0)); auto. intros id u _. apply class_effect_instr.
-    - apply (map_classes_pres (fun id u => u_gram u = None \/ u_gram u = Some (cls_gram id))); auto.
+    - apply (leak_classes_pres (fun _ u => u_instr u = 0)); auto.
+      apply (map_classes_pres (fun _ u => u_instr u = 0)); auto. intros id u _. apply class_effect_instr.
+    - apply (leak_classes_pres (fun id u => u_gram u = None \/ u_gram u = Some (cls_gram id))); auto.
+      apply (map_classes_pres (fun id u => u_gram u = None \/ u_gram u = Some (cls_gram id))); auto.
       intros id u _. rewrite class_effect_gram. auto.
   Qed.
 
@@ -199,8 +217,8 @@ Section Inv.
   Lemma view_canonical st s m : inv st -> slots st s = Some m ->
     view_of st m = fresh_view (m_cfg m) (if c_repo (m_cfg m) then m_repo m else []).
   Proof.
-    intros [Igc Igk Ib Is Ii Ig] Em. destruct (Is s m Em) as (Hd & Hmc & Hwf & Hgr & _).
-    unfold view_of, fresh_view. rewrite Hd, Hmc, Ib. f_equal.
+    intros [Igc Igk Ib Is Ii Ig] Em. destruct (Is s m Em) as (Hd & Hmc & Hst & Hwf & Hgr & _).
+    unfold view_of, fresh_view. rewrite Hd, Hmc, Hst, Ib. f_equal.
     - destruct (c_base (m_cfg m)); reflexivity.
     - apply map_ext. intro id. apply Ii.
     - apply map_ext_in. intros id Hin. rewrite (Hgr id Hin), (Hwf id Hin). reflexivity.
@@ -244,7 +262,7 @@ Section Inv.
   Qed.
 
   Lemma fresh_slot s c : k_kind (create_out c (fresh_gview c)) = COk ->
-    slots (final [New s c]) s = Some {| m_cfg := c; m_ser := 1; m_bp_dirty := false; m_cache := []; m_repo := [] |}.
+    slots (final [New s c]) s = Some {| m_cfg := c; m_ser := 1; m_bp_dirty := false; m_cache := []; m_repo := []; m_stale := false |}.
   Proof.
     intro Hk. unfold final, History.final. cbn. unfold fresh_gview in Hk. rewrite Hk. cbn. unfold upd. rewrite Nat.eqb_refl. reflexivity.
   Qed.
@@ -258,16 +276,16 @@ Section Inv.
     pose proof (final_inv ops Hwf) as I.
     rewrite (load_result _ s m i I Em). fold c. rewrite Hrepo.
     assert (Hok : k_kind (create_out c (fresh_gview c)) = COk).
-    { destruct I as [_ _ _ Is _ _]. destruct (Is s m Em) as (_ & _ & _ & _ & b & Hb & Hbk). fold c in Hb, Hbk.
+    { destruct I as [_ _ _ Is _ _]. destruct (Is s m Em) as (_ & _ & _ & _ & _ & b & Hb & Hbk). fold c in Hb, Hbk.
       destruct Hc as [Hk|Ht]; [rewrite (Hbk Hk) in Hb; exact Hb | rewrite <- (Ht c b); exact Hb]. }
     assert (Hwf1 : Forall wf_op [New s c]).
-    { constructor; [|constructor]. destruct I as [_ _ _ Is _ _]. destruct (Is s m Em) as (_ & _ & H & _). exact H. }
+    { constructor; [|constructor]. destruct I as [_ _ _ Is _ _]. destruct (Is s m Em) as (_ & _ & _ & H & _). exact H. }
     rewrite (load_result _ s _ i (final_inv _ Hwf1) (fresh_slot s c Hok)). cbn [m_cfg m_repo]. fold c. rewrite Hrepo. reflexivity.
   Qed.
 
   (* with a global repository the view differs from the fresh one only in the cached files *)
   Definition set_repo (v : view) (r : list nat) : view :=
-    {| v_memo := v_memo v; v_bp_dirty := v_bp_dirty v; v_caches := v_caches v; v_instr := v_instr v; v_cgram := v_cgram v; v_repo := r |}.
+    {| v_memo := v_memo v; v_bp_dirty := v_bp_dirty v; v_caches := v_caches v; v_instr := v_instr v; v_cgram := v_cgram v; v_repo := r; v_stale := v_stale v |}.
   (* returning a cached model is not observable in the structural dump (unchanged files, idempotent processors) *)
   Definition repo_blind : Prop :=
     forall c i v r, l_kind (load_out c i (set_repo v r)) = l_kind (load_out c i v) /\
@@ -284,10 +302,10 @@ Section Inv.
     pose proof (final_inv ops Hwf) as I.
     rewrite (load_result _ s m i I Em). fold c.
     assert (Hok : k_kind (create_out c (fresh_gview c)) = COk).
-    { destruct I as [_ _ _ Is _ _]. destruct (Is s m Em) as (_ & _ & _ & _ & b & Hb' & Hbk). fold c in Hb', Hbk.
+    { destruct I as [_ _ _ Is _ _]. destruct (Is s m Em) as (_ & _ & _ & _ & _ & b & Hb' & Hbk). fold c in Hb', Hbk.
       destruct Hc as [Hk|Ht]; [rewrite (Hbk Hk) in Hb'; exact Hb' | rewrite <- (Ht c b); exact Hb']. }
     assert (Hwf1 : Forall wf_op [New s c]).
-    { constructor; [|constructor]. destruct I as [_ _ _ Is _ _]. destruct (Is s m Em) as (_ & _ & H & _). exact H. }
+    { constructor; [|constructor]. destruct I as [_ _ _ Is _ _]. destruct (Is s m Em) as (_ & _ & _ & H & _). exact H. }
     rewrite (load_result _ s _ i (final_inv _ Hwf1) (fresh_slot s c Hok)). cbn [m_cfg m_repo]. fold c.
     cbn [out_obs].
     set (r1 := if c_repo c then m_repo m else []). set (r2 := if c_repo c then [] else []).
@@ -299,19 +317,19 @@ End Inv.
 
 (* ------------------------------------------------------------------ necessity: what breaks it *)
 Definition good_facts : facts := {| f_gp_key_memo := false; f_clear_in_finally := true; f_loads_use_clone := true;
-  f_clone_resets := true; f_except_restores := true; f_end_restores := true; f_restore_on_primitive := true |}.
+  f_clone_resets := true; f_except_restores := true; f_end_restores := true; f_restore_on_primitive := true; f_restore_guarded := true |}.
 
 (* the code before the fix: a primitive model leaves the user classes instrumented *)
 Definition prefix_facts : facts := {| f_gp_key_memo := false; f_clear_in_finally := true; f_loads_use_clone := true;
-  f_clone_resets := true; f_except_restores := true; f_end_restores := true; f_restore_on_primitive := false |}.
+  f_clone_resets := true; f_except_restores := true; f_end_restores := true; f_restore_on_primitive := false; f_restore_guarded := true |}.
 
-Definition wit_cfg : cfg := {| c_gram := 0; c_memo := false; c_debug := false; c_base := true; c_classes := [7]; c_repo := false; c_opts := 0 |}.
+Definition wit_cfg : cfg := {| c_gram := 0; c_memo := false; c_debug := false; c_base := true; c_classes := [7]; c_repo := false; c_root_user := false; c_opts := 0 |}.
 Definition wit_create (_ : cfg) (_ : gview) : cres := {| k_kind := COk; k_dump := 0 |}.
 (* input 0 is a primitive model; the dump of any other input shows whether a user class was instrumented when the load began *)
 Definition wit_load (_ : cfg) (i : nat) (v : view) : lres :=
   match i with
-  | 0 => {| l_kind := LOkPrim; l_dump := 0; l_leak := 0; l_files := [] |}
-  | _ => {| l_kind := LOk; l_dump := fold_left Nat.add (v_instr v) 0 + length (v_caches v); l_leak := 0; l_files := [] |}
+  | 0 => {| l_kind := LOkPrim; l_dump := 0; l_leak := []; l_files := [] |}
+  | _ => {| l_kind := LOk; l_dump := fold_left Nat.add (v_instr v) 0 + length (v_caches v); l_leak := []; l_files := [] |}
   end.
 
 Lemma prim_leak_refuted :
@@ -326,19 +344,41 @@ Proof. vm_compute. reflexivity. Qed.
 
 (* without the clearing in `finally`, a memoizing load leaves entries that the next load of the metamodel reads *)
 Definition noclear_facts : facts := {| f_gp_key_memo := false; f_clear_in_finally := false; f_loads_use_clone := true;
-  f_clone_resets := true; f_except_restores := true; f_end_restores := true; f_restore_on_primitive := true |}.
-Definition wit_cfg_memo : cfg := {| c_gram := 0; c_memo := true; c_debug := false; c_base := true; c_classes := []; c_repo := false; c_opts := 0 |}.
+  f_clone_resets := true; f_except_restores := true; f_end_restores := true; f_restore_on_primitive := true; f_restore_guarded := true |}.
+Definition wit_cfg_memo : cfg := {| c_gram := 0; c_memo := true; c_debug := false; c_base := true; c_classes := []; c_repo := false; c_root_user := false; c_opts := 0 |}.
 
 Lemma no_clear_refuted :
   result noclear_facts wit_create wit_load (final noclear_facts wit_create wit_load [New 0 wit_cfg_memo; Load 0 1]) (Load 0 2)
   <> result noclear_facts wit_create wit_load (final noclear_facts wit_create wit_load [New 0 wit_cfg_memo]) (Load 0 2).
 Proof. vm_compute. discriminate. Qed.
 
+(* the code before the second fix: the except path of a nested load (an imported file that fails to
+   parse) un-instruments the classes of the enclosing load; the half-built model stays in the global
+   repository and the next load of the file sees it *)
+Definition unguarded_facts : facts := {| f_gp_key_memo := false; f_clear_in_finally := true; f_loads_use_clone := true;
+  f_clone_resets := true; f_except_restores := true; f_end_restores := true; f_restore_on_primitive := true; f_restore_guarded := false |}.
+Definition wit_cfg_repo : cfg := {| c_gram := 3; c_memo := false; c_debug := false; c_base := false; c_classes := [5]; c_repo := true;
+                                    c_root_user := true; c_opts := 0 |}.
+(* input 3 imports a file that does not parse; a stale repository entry turns the error into a "model" *)
+Definition wit_load_repo (_ : cfg) (i : nat) (v : view) : lres :=
+  if v_stale v then {| l_kind := LOk; l_dump := 99; l_leak := []; l_files := [] |}
+  else {| l_kind := LImportSyntax; l_dump := 1; l_leak := [1]; l_files := [3; 4] |}.
+
+Lemma unguarded_restore_refuted :
+  result unguarded_facts wit_create wit_load_repo (final unguarded_facts wit_create wit_load_repo [New 0 wit_cfg_repo; Load 0 3]) (Load 0 3)
+  <> result unguarded_facts wit_create wit_load_repo (final unguarded_facts wit_create wit_load_repo [New 0 wit_cfg_repo]) (Load 0 3).
+Proof. vm_compute. discriminate. Qed.
+
+Lemma unguarded_restore_fixed :
+  result good_facts wit_create wit_load_repo (final good_facts wit_create wit_load_repo [New 0 wit_cfg_repo; Load 0 3]) (Load 0 3)
+  = result good_facts wit_create wit_load_repo (final good_facts wit_create wit_load_repo [New 0 wit_cfg_repo]) (Load 0 3).
+Proof. vm_compute. reflexivity. Qed.
+
 (* the grammar-parser cache is keyed by the debug flag only: if memoization of the GRAMMAR parser were
    observable, metamodel creation would depend on which metamodel was created first *)
 Definition flip_memo (c : cfg) : cfg :=
   {| c_gram := c_gram c; c_memo := negb (c_memo c); c_debug := c_debug c; c_base := c_base c; c_classes := [];
-     c_repo := c_repo c; c_opts := c_opts c |}.
+     c_repo := c_repo c; c_root_user := false; c_opts := c_opts c |}.
 
 Lemma memo_flag_visible F create_out load_out c :
   good F = true -> f_gp_key_memo F = false ->
